@@ -213,10 +213,11 @@ Proc(k) ==
           /\ net' = NetAdd(net, k, pub.prod, 1)
           /\ cuts' = [cuts EXCEPT ![k] = c2]
           /\ obs' = [a |-> "proc", n |-> k, verdict |-> "-", prod |-> pub.prod,
-                     e1 |-> E1Failed(U, blk, canon, ks[k], p.out), e2 |-> e2]
+                     e1 |-> E1Failed(U, blk, canon, ks[k], p.ks, p.out), e2 |-> e2]
           /\ hist' = Append(hist, [a |-> "proc", n |-> k, m |-> NoMsg,
                                    tg |-> [emit |-> Len(p.out), sent |-> Len(Flat(p.out, 1)), d6 |-> "E2_Known_D6" \in e2, rng |-> Behind(k),
-                                           rb |-> Len(p.mseq) > 0 /\ p.mseq[1].synced.hash = Empty]])
+                                           rb |-> Len(p.mseq) > 0 /\ p.mseq[1].synced.hash = Empty,
+                                           x |-> SetToSeq(E1Failed(U, blk, canon, ks[k], p.ks, p.out) \cap InfoMonitors)]])
     /\ lastp' = [lastp EXCEPT ![k] = canon]
     /\ UNCHANGED <<ui, blk, canon, forked, dropped>>
 
@@ -259,7 +260,7 @@ Next ==
 Spec == Init /\ [][Next]_vars
 
 ----------------------------------------------------------------------------
-StepOK == [][/\ obs'.e1 = {}
+StepOK == [][/\ obs'.e1 \subseteq InfoMonitors
              /\ obs'.e2 \subseteq (IF AllowKnown THEN {"E2_Known_D6"} ELSE {})
              /\ StepFailed([verdict |-> obs'.verdict, prod |-> obs'.prod], nd') = {}]_vars
 KeysOK == NetEmpty(net) => E3_AllHaveKeys(Sent, nd)
